@@ -32,15 +32,14 @@ From Verif Require Import Proofs.SweepMulti Proofs.SweepProduct Proofs.SweepWitn
 
 (* product of sweeps with disjoint keys = Cartesian product of the combination lists, row-major, as finite maps
    (ceq: same value for every key), including constants, derivers and exclusions of all operands, and len agrees.
-   FULL STATEMENT (false of the code, see the two _refuted theorems): the same without the two hypotheses marked
-   "guard". Hypotheses: operands well formed, every name (item, constant and deriver keys) used by one operand only,
+   FULL STATEMENT (false of the code, see C17_product_is_cartesian_refuted_zip): the same without the hypothesis marked
+   "guard" (operands without items are covered: they have no combinations and neither has the product). Hypotheses: operands well formed, every name (item, constant and deriver keys) used by one operand only,
    user callables only look at keys of their own operand, dims omitted or in item order. *)
 Theorem C17_product_is_cartesian_partial : forall s others ls,
   Forall (fun o => wf_sweep o = true) (s :: others) ->
   NoDup (concat (map all_keys (s :: others))) ->
   Forall local_sweep (s :: others) ->
   Forall (fun o => in_item_order o = true) (s :: others) ->
-  Forall (fun o => items o <> []) (s :: others) ->                      (* guard: product-empty-operand-neutral *)
   (dims s = None -> Forall (fun o => dims o = None) others) ->          (* guard: product-loses-zip *)
   mapM generate (s :: others) = Ok ls ->
   exists p l, product s others = Ok p /\ generate p = Ok l /\ Forall2 ceq l (cart_union ls)
@@ -54,7 +53,6 @@ Example C17_product_hyps_inhabited :
   /\ NoDup (concat (map all_keys [e_1; e_2; e_3]))
   /\ Forall local_sweep [e_1; e_2; e_3]
   /\ Forall (fun o => in_item_order o = true) [e_1; e_2; e_3]
-  /\ Forall (fun o => items o <> []) [e_1; e_2; e_3]
   /\ (dims e_1 = None -> Forall (fun o => dims o = None) [e_2; e_3])
   /\ exists ls, mapM generate [e_1; e_2; e_3] = Ok ls /\ length (cart_union ls) = 8.
 Proof. exact product_example_hyps. Qed.
@@ -72,21 +70,6 @@ Theorem C17_product_is_cartesian_refuted_zip :
     /\ length l = 8 /\ length (cart_union ls) = 4.
 Proof. exact product_loses_zip_witness. Qed.
 Print Assumptions C17_product_is_cartesian_refuted_zip.
-
-(* without the guard on empty item dicts: 2 combinations instead of 2 x 0 (known finding
-   product-empty-operand-neutral) *)
-Theorem C17_product_is_cartesian_refuted_empty :
-  exists s others ls p l,
-    Forall (fun o => wf_sweep o = true) (s :: others)
-    /\ NoDup (concat (map all_keys (s :: others)))
-    /\ Forall local_sweep (s :: others)
-    /\ Forall (fun o => in_item_order o = true) (s :: others)
-    /\ (dims s = None -> Forall (fun o => dims o = None) others)
-    /\ mapM generate (s :: others) = Ok ls
-    /\ product s others = Ok p /\ generate p = Ok l /\ len p = Ok (length l)
-    /\ length l = 2 /\ length (cart_union ls) = 0.
-Proof. exact product_empty_operand_witness. Qed.
-Print Assumptions C17_product_is_cartesian_refuted_empty.
 
 (* a + b, MultiSweep( *l ): concatenation, and len is the sum / the length of the list *)
 Theorem C17_add_is_concat : forall a b,
@@ -115,19 +98,6 @@ Theorem C17_filtered_is_projection_derivers : forall s keys l d0,
 Proof. exact filtered_with_derivers. Qed.
 Print Assumptions C17_filtered_is_projection_derivers.
 
-(* filtered_sweep(keys) of a sweep WITHOUT derivers, constants and exclude: the full statement is false of the
-   code (known finding filtered-ignores-empty-dimension): *)
-Theorem C17_filtered_is_projection_refuted :
-  exists sw keys f l l',
-    wf_sweep sw = true /\ in_item_order sw = true
-    /\ consts sw = None /\ excl sw = None /\ ders sw = None
-    /\ Forall (fun kv => nodup_vals (snd kv) = true) (items sw)
-    /\ keys <> [] /\ NoDup keys /\ incl keys (concat (groups sw))
-    /\ generate sw = Ok l /\ filtered sw keys = Ok f /\ generate f = Ok l'
-    /\ l = [] /\ length l' = 2.
-Proof. exact filtered_empty_dimension_witness. Qed.
-Print Assumptions C17_filtered_is_projection_refuted.
-
 (* count_sweep (counting loop, given the (dependency, root_args) pairs of the pipeline): every root-argument tuple
    that occurs is reported exactly once, with the number of combinations sharing it *)
 Theorem C17_count_sweep_counts : forall deps cs r,
@@ -145,29 +115,27 @@ From Verif Require Import Proofs.SweepFilterB.
 
 (* filtered_sweep(keys) of a sweep without derivers, constants and exclude: the filtered sweep enumerates the
    distinct projections onto keys - no two of its combinations are equal as finite maps (nodup_ceq), each is the
-   projection of a combination of the sweep, and every projection occurs.
-   FULL STATEMENT (false of the code, see C17_filtered_is_projection_refuted): the same without the hypothesis
-   marked "guard".  Value lists without duplicates inside one key, as in DESIGN.md. *)
-Theorem C17_filtered_is_projection_partial : forall s keys l,
+   projection of a combination of the sweep, and every projection occurs (also when a dimension is empty: then
+   neither the sweep nor the filtered sweep has combinations).  Value lists without duplicates inside one key, as in
+   DESIGN.md. *)
+Theorem C17_filtered_is_projection : forall s keys l,
   wf_sweep s = true -> in_item_order s = true ->
   opt_keys (consts s) = [] -> excl s = None -> ders s = None ->
   Forall (fun kv => NoDup (snd kv)) (items s) ->
   keys <> [] -> NoDup keys -> incl keys (concat (groups s)) ->
-  Forall (fun g => 0 < glen (items s) g) (groups s) ->                 (* guard: filtered-ignores-empty-dimension *)
   generate s = Ok l ->
   exists f l', filtered s keys = Ok f /\ generate f = Ok l' /\ len f = Ok (length l')
     /\ nodup_ceq l'
     /\ (forall x, In x l' -> exists c, In c l /\ ceq (proj keys c) x)
     /\ (forall c, In c l -> exists x, In x l' /\ ceq (proj keys c) x).
 Proof. exact filtered_no_derivers. Qed.
-Print Assumptions C17_filtered_is_projection_partial.
+Print Assumptions C17_filtered_is_projection.
 
 Example C17_filtered_hyps_inhabited :
   wf_sweep e_f = true /\ in_item_order e_f = true
   /\ opt_keys (consts e_f) = [] /\ excl e_f = None /\ ders e_f = None
   /\ Forall (fun kv => NoDup (snd kv)) (items e_f)
   /\ [s "c"; s "a"] <> [] /\ NoDup [s "c"; s "a"] /\ incl [s "c"; s "a"] (concat (groups e_f))
-  /\ Forall (fun g => 0 < glen (items e_f) g) (groups e_f)
   /\ exists l, generate e_f = Ok l /\ length l = 6.
 Proof. exact filtered_example_hyps. Qed.
 
@@ -201,11 +169,9 @@ Print Assumptions C17_generate_permuted_same_set.
 From Verif Require Import Model.SweepSeq Proofs.SweepSeqFacts.
 
 (* operation sequences on shared objects (product / + / filtered_sweep / add_derivers): in the model no operation
-   modifies an object that already exists - except `+` with a MultiSweep on the left, which extends it in place
-   (known finding multisweep-add-mutates-left); the correspondence check observes list()/len() of every operand and
+   modifies an object that already exists; the correspondence check observes list()/len() of every operand and
    every earlier result after each step on the real objects *)
 Theorem C17_operations_preserve_objects : forall h slots op h' id,
-  step h slots op = SNew h' id -> ~ mutating h slots op ->
-  forall k o, nth_error h k = Some o -> nth_error h' k = Some o.
+  step h slots op = SNew h' id -> forall k o, nth_error h k = Some o -> nth_error h' k = Some o.
 Proof. exact step_preserves_objects. Qed.
 Print Assumptions C17_operations_preserve_objects.
